@@ -231,8 +231,32 @@ func Huge(rng *rand.Rand) string {
 	}
 }
 
+// ManyLabels draws a name of many minimal labels around the maximum total
+// length: k one-byte labels for k = 118..128 (127 of them are 253 bytes),
+// two- and three-byte labels, mixed, with or without a trailing dot.
+func ManyLabels(rng *rand.Rand) string {
+	n := 1 + rng.IntN(3)
+	k := map[int][]int{1: {118, 120, 125, 126, 127, 128}, 2: {80, 83, 84, 85, 86}, 3: {60, 62, 63, 64, 65}}[n][rng.IntN(5)]
+	parts := make([]string, 0, k+2)
+	for i := 0; i < k; i++ {
+		parts = append(parts, hostLabel(rng, n))
+	}
+	for rng.IntN(3) == 0 {
+		parts = append(parts, hostLabel(rng, 1))
+	}
+	parts = append(parts, []string{"a", "xy", "com"}[n-1])
+	s := strings.Join(parts[len(parts)-k:], ".")
+	if rng.IntN(5) == 0 {
+		s += "."
+	}
+	return s
+}
+
 // GenerateAny draws one arbitrary input, now and then a huge one.
 func GenerateAny(rng *rand.Rand) string {
+	if rng.IntN(60) == 0 {
+		return ManyLabels(rng)
+	}
 	if rng.IntN(300) == 0 {
 		return Huge(rng)
 	}
